@@ -18,6 +18,9 @@ def systems(n, dtype):
     out.append(("atan-no-root", lambda x: np.arctan(x) - 2, lambda x: np.diag(1 / (1 + x.reshape(-1) ** 2)), None, False))
     out.append(("double-root", lambda x: (x - 1) ** 2, lambda x: np.diag(2 * (x.reshape(-1) - 1)), np.ones(n, dtype=dtype), True))
     out.append(("exp", lambda x: np.exp(x) - c.reshape(x.shape), lambda x: np.diag(np.exp(x.reshape(-1))), np.log(c), True))
+    # steep systems that do have a root, started where the residual is astronomically large (step-size rule under stress)
+    out.append(("steep-exp", lambda x: np.exp(40 * x) - 1, lambda x: np.diag(40 * np.exp(40 * x.reshape(-1))), np.zeros(n, dtype=dtype), True))
+    out.append(("septic", lambda x: x ** 7 - 1, lambda x: np.diag(7 * x.reshape(-1) ** 6), np.ones(n, dtype=dtype), True))
     if n >= 2:
         def coupled(x):
             v = x.reshape(-1)
@@ -56,11 +59,15 @@ def main():
             for shape in shapes:
                 for name, F, J, root, has_root in systems(n, dtype):
                     starts = [("good", (root if root is not None else np.zeros(n)) + 0.1), ("bad", np.full(n, 25.0)), ("at-singular", np.ones(n) if name == "double-root" else np.full(n, 1e-3))]
+                    if name == "steep-exp":
+                        starts = [("good", np.full(n, 0.01)), ("bad", np.linspace(0.5, 1.0, n))]
+                    if name == "septic":
+                        starts = [("good", np.full(n, 1.1)), ("bad", np.linspace(30.0, 100.0, n))]
                     for sname, x0 in starts:
                         x0 = np.asarray(x0, dtype=dtype).reshape(shape)
                         for with_jac in (True, False):
                             for solver in ("nonlinear_roots", "hybrj", "newtontrustregion"):
-                                if solver == "hybrj" and not with_jac:
+                                if solver == "hybrj" and not with_jac and name not in ("steep-exp", "septic"):
                                     continue
                                 info = dict(system=name, n=n, shape=list(shape), dtype=np.dtype(dtype).name, start=sname, jac=with_jac, solver=solver)
                                 cases[0] += 1
@@ -68,7 +75,7 @@ def main():
                                     if solver == "nonlinear_roots":
                                         x, res = O.nonlinear_roots(F, x0, jac=J if with_jac else None, tol=tol)
                                     elif solver == "hybrj":
-                                        x, res = O.hybrj(F, x0, J, tol=tol)
+                                        x, res = O.hybrj(F, x0, J if with_jac else None, tol=tol)
                                     else:
                                         x, res = O.newtontrustregion(F, x0, jac=J if with_jac else None, tol=tol)
                                 except Exception as e:
@@ -88,7 +95,7 @@ def main():
                                         fail("reported-residual-is-not-the-residual-at-the-returned-point", reported=prec, residual=resid, **info)
                                 if not has_root and success:
                                     fail("success-on-a-system-without-a-root[%s]" % solver, residual=resid, **info)
-    json.dump(dict(bound="5 smooth systems x n in %s x shapes x float64/longdouble x 3 starts x with/without Jacobian x 3 solvers" % (list(dims),), cases=cases[0], failures=failures), sys.stdout)
+    json.dump(dict(bound="7 smooth systems x n in %s x shapes x float64/longdouble x 3 starts x with/without Jacobian x 3 solvers" % (list(dims),), cases=cases[0], failures=failures), sys.stdout)
 
 
 if __name__ == "__main__":
